@@ -40,7 +40,10 @@ Inductive scall :=
 | SStat (fid : N)
 | SWStat (fid : N) (dir : list N)
 | SClunk (fid : N)
-| SRemove (fid : N).
+| SRemove (fid : N)
+| SAuth (afid : N) (uname aname : bstr)
+| SRead (fid count : N) (off : Z)
+| SWrite (fid : N) (data : list N) (off : Z).
 
 Inductive sres :=
 | AQid (q : qid)                 (* Attach *)
@@ -48,6 +51,8 @@ Inductive sres :=
 | AOpen (q : qid) (iounit : N)   (* Open, Create; iounit is a uint32 *)
 | AStat (d : list N)             (* Stat *)
 | AUnit                          (* WStat, Clunk, Remove *)
+| ARead (d : list N)             (* Read: the bytes put into p *)
+| AWritten (n : N)               (* Write *)
 | AErr.                          (* the call returned an error *)
 
 (* ---- what the caller gets back ---- *)
@@ -61,6 +66,9 @@ Inductive cres :=
 | CCreated (e : cEnt) (iounit : Z)       (* Create: the entry (same fid, new qid) and its file *)
 | CStat (d : list N)
 | CUnit
+| CAuth (afid : N) (iounit : Z)          (* Auth: aFile{session, afid}; IOUnit() = msize - 11 *)
+| CRead (d : list N)
+| CWritten (n : N)
 | CErr                                   (* the session's error, passed on *)
 | CRefused                               (* refused locally, without a session call *)
 | CPanic.
@@ -77,7 +85,12 @@ Inductive op :=
 | OStat (e : cEnt)
 | OWStat (e : cEnt) (dir : list N)
 | OClunk (e : cEnt)
-| ORemove (e : cEnt).
+| ORemove (e : cEnt)
+(* the auth file: obtained from Auth, identified by its afid (noAuth: NOFID, no session) *)
+| OAuth (uname aname : bstr)
+| OARead (afid count : N) (off : Z)
+| OAWrite (afid : N) (data : list N) (off : Z)
+| OAClose (afid : N).
 
 (* iou := int(iounit); if iounit < 1 { iou = msize - 11 } *)
 Definition io_unit (msize : Z) (iounit : N) : Z :=
@@ -145,6 +158,18 @@ Definition do_op (msize : Z) (next : N) (o : op) (ans : sres) : option scall * c
   | OWStat e d => (Some (SWStat (c_fid e) d), match ans with AUnit => CUnit | _ => CErr end, next)
   | OClunk e => (Some (SClunk (c_fid e)), match ans with AUnit => CUnit | _ => CErr end, next)
   | ORemove e => (Some (SRemove (c_fid e)), match ans with AUnit => CUnit | _ => CErr end, next)
+  | OAuth uname aname =>
+      let a := new_fid next in                    (* taken whether or not the server accepts *)
+      (Some (SAuth a uname aname),
+       match ans with AQid _ => CAuth a (msize - 11)%Z | _ => CErr end, a)
+  | OARead afid count off =>
+      (Some (SRead afid count off), match ans with ARead d => CRead d | _ => CErr end, next)
+  | OAWrite afid data off =>
+      (Some (SWrite afid data off), match ans with AWritten n => CWritten n | _ => CErr end, next)
+  | OAClose afid =>
+      (* after the repair: Close clunks the afid; noAuth (no session) has nothing to let go of *)
+      if afid =? NOFID then (None, CUnit, next)
+      else (Some (SClunk afid), match ans with AUnit => CUnit | _ => CErr end, next)
   end.
 
 (* ---- the abstract server: which fids are bound ---- *)
@@ -158,12 +183,15 @@ Definition srv_step (srv : list N) (c : option scall) (ans : sres) : list N :=
       | AWalk qids => if Nat.eqb (length qids) (length names) then newfid :: srv else srv
       | _ => srv
       end
+  | Some (SAuth afid _ _) => match ans with AQid _ => afid :: srv | _ => srv end   (* held as an auth fid *)
   | Some (SClunk fid) => unbind fid srv      (* the fid is gone whatever the answer *)
   | Some (SRemove fid) => unbind fid srv
   | _ => srv
   end.
 
-(* ---- the caller's bookkeeping: entries obtained and not yet clunked or removed ---- *)
+(* ---- the caller's bookkeeping: the objects obtained that hold a fid - entries not yet clunked
+        or removed, auth files not yet closed (recorded as an entry-shaped pair of afid and the
+        zero qid) ---- *)
 Definition live_step (live : list cEnt) (o : op) (r : cres) : list cEnt :=
   match o, r with
   | OAttach _ _ _, CEnt e => e :: live
@@ -172,6 +200,8 @@ Definition live_step (live : list cEnt) (o : op) (r : cres) : list cEnt :=
       map (fun x => if c_fid x =? c_fid e0 then e else x) live
   | OClunk e, _ => filter (fun x => negb (c_fid x =? c_fid e)) live
   | ORemove e, _ => filter (fun x => negb (c_fid x =? c_fid e)) live
+  | OAuth _ _, CAuth a _ => {| c_fid := a; c_qid := qid0 |} :: live   (* an auth file holds a fid too *)
+  | OAClose a, _ => if a =? NOFID then live else filter (fun x => negb (c_fid x =? a)) live
   | _, _ => live
   end.
 
